@@ -171,7 +171,7 @@ def run_scenario(run: Run, scen: dict, rng: random.Random):
 
 
 def check(run: Run, tier: str, seed: int):
-    n = 60 if tier == "quick" else 800
+    n = 120 if tier == "quick" else 800
     for i in range(n):
         cls, opts = CLASSES[i % len(CLASSES)]
         srng = random.Random(f"C11-{seed}-{i}")
